@@ -229,3 +229,34 @@ pub fn ks_range(p: &Prim, inp: &dyn Fn(u128) -> Vec<u8>, block: u128, off: usize
     }
     out
 }
+
+/// padding schemes of the `block-padding` crate, written from their definitions.
+/// kind: 0 PKCS#7, 1 ISO 7816-4, 2 none (whole blocks only), 3 zeros (nothing added to whole
+/// blocks), 4 ANSI X9.23.  None = the message cannot be padded (NoPadding with a partial block).
+pub fn pad(kind: u8, bs: usize, msg: &[u8]) -> Option<Vec<u8>> {
+    let r = msg.len() % bs;
+    let n = bs - r; // 1..=bs bytes to add for the reversible schemes
+    let mut v = msg.to_vec();
+    match kind {
+        0 => v.extend(std::iter::repeat(n as u8).take(n)),
+        1 => {
+            v.push(0x80);
+            v.extend(std::iter::repeat(0u8).take(n - 1));
+        }
+        2 => {
+            if r != 0 {
+                return None;
+            }
+        }
+        3 => {
+            if r != 0 {
+                v.extend(std::iter::repeat(0u8).take(n));
+            }
+        }
+        _ => {
+            v.extend(std::iter::repeat(0u8).take(n - 1));
+            v.push(n as u8);
+        }
+    }
+    Some(v)
+}
